@@ -6,7 +6,7 @@
    All statements quantify over every schedule (every reachable state / every run), every event
    list, every per-event execution function `exec`. `sel k` says whether the send at site k also
    selects on ctx.Done(); the repaired code has `sel k = true` for every site. *)
-From Coq Require Import List Arith Bool.
+From Coq Require Import List Arith Bool NArith.
 From GQL Require Import Conc.SubscriptionLts Proofs.ConcSubscription.
 Import ListNotations.
 
@@ -119,6 +119,28 @@ Proof.
   apply (orun_is_run ev res exec sel cap) with (os := os). exact O.
 Qed.
 Print Assumptions C15_accepts_sound.
+
+(* ... and conversely every run of the LTS has its visible trace accepted: a rejected observed
+   trace (code 1 of the runner) is not a behaviour of the model. *)
+Theorem C15_accepts_complete : forall ev res (exec : ev -> res) sel cap res_eqb ev_eqb,
+  (forall a b, res_eqb a b = true -> a = b) -> (forall a, res_eqb a a = true) ->
+  (forall a b, ev_eqb a b = true -> a = b) ->
+  forall s0 os s, orun ev res exec sel cap s0 os s -> accepts_obs ev res exec sel cap res_eqb ev_eqb s0 os = true.
+Proof. exact accepts_obs_complete. Qed.
+Print Assumptions C15_accepts_complete.
+
+(* the instance the runner evaluates (events and results are numbers): accepted = trace of the LTS *)
+Theorem C15_runner_acceptor_exact : forall (exec : N -> N) sel cap s0 os,
+  accepts_obs N N exec sel cap N.eqb N.eqb s0 os = true <-> exists s, orun N N exec sel cap s0 os s.
+Proof.
+  intros exec sel cap s0 os. split.
+  - intros H. apply (accepts_obs_sound N N exec sel cap N.eqb N.eqb) in H; [exact H|]. intros a b E. apply N.eqb_eq. exact E.
+  - intros (s & O). apply (accepts_obs_complete N N exec sel cap N.eqb N.eqb) with (s := s); [| | |exact O].
+    + intros a b E. apply N.eqb_eq. exact E.
+    + intros a. apply N.eqb_refl.
+    + intros a b E. apply N.eqb_eq. exact E.
+Qed.
+Print Assumptions C15_runner_acceptor_exact.
 
 (* schedules as label lists: `accepts` decides exactly the runs *)
 Theorem C15_accepts_schedules : forall ev res (exec : ev -> res) sel cap s0 ls,
